@@ -44,6 +44,10 @@ ASSIGNMENTS_QUICK = [
     "a() = b(i) * c(i)",
     "a() = b(i) + c(i)",
     "a() = b() + 3",
+    "a(i) = b()",
+    "a(i) = 2",
+    "A(i,j) = b(i)",
+    "A(i,j) = b(j) * 2 + 1",
     "o() = X() + Y(k) + Z(k)",
     "o() = Y(k) + Z(k) + X()",
     "a() = b(i) * 2 + 1",
